@@ -88,6 +88,91 @@ func c18Walker(c *Ctx, ge *GuardEngine) {
 			nv++
 		}
 	}
+	if nv == 0 {
+		// the visitor called directly (no local wrapper): calls of the function-typed parameter with a constructor result
+		for _, f := range append([]*ssa.Function{fn}, fn.AnonFuncs...) {
+			for _, b := range f.Blocks {
+				for _, in := range b.Instrs {
+					call, ok := in.(*ssa.Call)
+					if !ok || call.Call.IsInvoke() || len(call.Call.Args) != 1 {
+						continue
+					}
+					if prm, isParam := call.Call.Value.(*ssa.Parameter); !isParam || prm.Parent() != fn {
+						continue
+					}
+					if ctor, ok := call.Call.Args[0].(*ssa.Call); ok {
+						if cal := ctor.Call.StaticCallee(); cal != nil && strings.HasSuffix(cal.Name(), "Leaf") {
+							nv++
+						}
+					}
+				}
+			}
+		}
+	}
+	// ephemeral elements (no leaf index yet) have no proof: every hand-over to the visitor happens only where the
+	// element's (or the built leaf's) LeafIndex was compared with UnassignedLeafIndex and differed
+	unassigned := ""
+	if pkg := c.P.Pkg("types"); pkg != nil {
+		if k, ok := pkg.Types.Scope().Lookup("UnassignedLeafIndex").(*types.Const); ok {
+			unassigned = "const:" + k.Val().ExactString()
+		}
+	}
+	nh := 0
+	for _, f := range append([]*ssa.Function{fn}, fn.AnonFuncs...) {
+		fi := ge.info(f)
+		for _, b := range f.Blocks {
+			for _, in := range b.Instrs {
+				call, ok := in.(*ssa.Call)
+				if !ok || call.Call.IsInvoke() || len(call.Call.Args) != 1 {
+					continue
+				}
+				target := call.Call.Value
+				if ld, isLoad := target.(*ssa.UnOp); isLoad && ld.Op == token.MUL {
+					target = ld.X // a captured parameter is read through its cell
+				}
+				switch v := target.(type) {
+				case *ssa.Parameter:
+					if v.Parent() != fn {
+						continue
+					}
+				case *ssa.FreeVar:
+				case *ssa.Alloc:
+					spilled := false
+					for _, r := range *v.Referrers() {
+						if st, isSt := r.(*ssa.Store); isSt && st.Addr == ssa.Value(v) {
+							if prm, isP := st.Val.(*ssa.Parameter); isP && prm.Parent() == fn {
+								spilled = true
+							}
+						}
+					}
+					if !spilled {
+						continue
+					}
+				default:
+					continue
+				}
+				if _, isFunc := call.Call.Value.Type().Underlying().(*types.Signature); !isFunc {
+					continue
+				}
+				nh++
+				arg := ge.pv.Atom(call.Call.Args[0], nil)
+				subjects := []string{arg}
+				if as := callArgs(arg); strings.HasPrefix(arg, "call types.") && len(as) >= 1 {
+					subjects = append(subjects, as[0])
+				}
+				okSkip := false
+				for _, e := range ge.ctxEdges(fi, b, nil) {
+					for _, sj := range subjects {
+						if e.desc == sj+".StateElement.LeafIndex != "+unassigned || e.desc == sj+".LeafIndex != "+unassigned {
+							okSkip = true
+						}
+					}
+				}
+				c.Check(okSkip && unassigned != "", "walker-coverage", fmt.Sprintf("skips-ephemeral#%d", nh), c.P.Pos(call.Pos()), ifElse(okSkip, "handed to the visitor only when its leaf index is assigned", "the visitor receives "+arg+" without a test of its LeafIndex against UnassignedLeafIndex: an ephemeral element (no proof, no position) enters the multiproof"))
+			}
+		}
+	}
+	c.Check(nh >= 1, "walker-coverage", "skips-ephemeral:inventory", c.P.Pos(fn.Pos()), fmt.Sprintf("%d hand-over(s) to the visitor examined", nh))
 	c.Check(nv >= len(paths), "walker-coverage", "visited", c.P.Pos(fn.Pos()), fmt.Sprintf("%d leaf constructor results handed to the visitor for %d element positions", nv, len(paths)))
 	c.Min("walker-coverage", 6)
 }
